@@ -22,7 +22,7 @@ func init() {
 	stats.Rule("C06", "rapid cases: a source sketch built by a short generated history (weighted adds with dyadic weights, bursts, merges, reweights; any mapping, any of the five store kinds per side, plain or exact variant), encoded with omitIndexMapping in {true,false} after an arbitrary buffer prefix (with and without spare capacity); decoded into a target of any of the five store kinds (collapsing with its own N); 0..3 further sketches for concatenation; a non-empty receiver of any kind. Oracle: (1) decode(enc(s)) has an Equal mapping that re-encodes to the same bytes, bins == fold_target(observed bins of s), zero weight equal, whole observation identical to the source's for non-collapsing targets; (2) r.DecodeAndMergeWith(enc(s)) is observationally identical to r'.MergeWith(s) on a copy; (3) decoding a concatenation equals merging; (4) Encode leaves the prefix and the backing array before it untouched; (5) Encode does not change the source's observation. A second generator gives each index one arbitrary non-negative float64 weight (subnormal..1e300) in a dense or sparse source: each decoded weight must have exactly the bits of (w+1)-1 (absent when that is 0). Non-trivial: a source with >= 2 bins on at least one side; distinct by hash of the printed case; labels record which wire layouts occurred (read from the stream by the independent parser).")
 }
 
-var codecSourceKinds = []string{"add", "add", "add", "add", "add", "add", "add", "burst", "burst", "spread", "merge", "merge", "reweight", "reweight", "clear", "clear"}
+var codecSourceKinds = []string{"add", "add", "add", "add", "add", "add", "add", "burst", "burst", "spread", "tworuns", "merge", "merge", "reweight", "reweight", "clear", "clear"}
 
 // buildSource builds a sketch by a short history.
 func buildSource(t *rapid.T, cl *caseLog, c skCfg, d valDom, bud *model.Budget, maxOps int, tag string) *skUT {
@@ -147,6 +147,20 @@ func TestC06(t *testing.T) {
 			}
 		}
 
+		// (1b) second generation: what was decoded is encoded again and decoded again (stores built by a decoder can be in
+		// states that additions never produce, e.g. allocated but empty regions)
+		var b2 []byte
+		dec.Encode(&b2, omit)
+		dec2, err := decodeSketch(tc, b2, omit)
+		if err != nil {
+			t.Fatalf("C06 %s -> %s: the decoded sketch's own encoding cannot be decoded (second generation): %v", sc, tc, err)
+		}
+		tu2 := &skUT{cfg: tc, s: dec2, k: tk, bud: bud, cl: cl, inex: src.inex + 2}
+		if msg := tu2.invariant(); msg != "" {
+			t.Fatalf("C06 %s -> %s -> %s: second-generation decode differs from the content: %s", sc, tc, tc, msg)
+		}
+		cl.label("second-generation")
+
 		// (2) decoding into a non-empty sketch == merging
 		rc := skCfg{spec: sc.spec, m: sc.m, exact: sc.exact, pos: gen.AnyKind().Draw(t, "rpos"), neg: gen.AnyKind().Draw(t, "rneg")}
 		if rc.exact {
@@ -207,6 +221,7 @@ func TestC06(t *testing.T) {
 			maxBins = n
 		}
 		cl.labelIf(len(src.k.pos) > 0 && len(src.k.neg) > 0, "both-sides")
+		checkVanishedEncoding(t, cl, "C06", sc, src.s, omit)
 		cl.done(maxBins >= 2)
 	})
 }
